@@ -23,7 +23,10 @@ OBLIGATIONS = [
     "Allfed.C18.redistribute_ge_round1", "Allfed.C18.redistribute_nonneg",
     "Allfed.C18.bump_never_lowers", "Allfed.C18.bump_within_ceiling", "Allfed.C18.bump_within_ceiling_of_le",
     "Allfed.C18.bump_feed_leak_witness", "Allfed.C18.bump_above_ceiling_counterexample",
+    "Allfed.C18.increase_length", "Allfed.C18.increase_nonneg", "Allfed.C18.increase_le_half_extra", "Allfed.C18.increase_zero_iff",
+    "Allfed.C18.increase1_eq", "Allfed.C18.final_charge_never_lowers_and_within_demand",
 ]
+RULE_REAL = "plus three real three-round runs (ARG, NZL, USA continued feed; 48 months): captured arguments of increase_biofuels_then_feed vs the model's rule of thumb"
 RULE = ("generated arrays (lengths 1..120, magnitudes 1e-6..1e6, zeros, ties, negatives where the code admits them) fed to the four real "
         "helpers of Parameters and to the Lean model; a case is non-trivial when the model takes a non-default branch "
         "(cap binds / a deficit is filled / an increase is applied); distinct = distinct input arrays")
@@ -317,12 +320,97 @@ CORPUS_BUMP = [
 ]
 
 
+
+# ----------------------------------------------------------------------------------------------
+# the third round's "potential increase" (compute_parameters_third_round): tie on real three-round runs
+REAL_RUNS = [("ARG", dict(NMONTHS=48)), ("NZL", dict(NMONTHS=48)), ("USA", dict(NMONTHS=48, shutoff="continued"))]
+
+
+def run_real_increase(ctx, runs=REAL_RUNS):
+    """run real three-round scenarios, capture the six arguments of increase_biofuels_then_feed from outside, recompute the third one
+    (the rule of thumb: half of the extra meat of round 3 over round 1, in kcals per person per day, minus 20 (NZL: 100), clipped at 0,
+    converted back) with the model from the two `each_month_meat_slaughtered` series, and compare"""
+    from lib import pipeline
+    from src.optimizer.parameters import Parameters
+    for iso, over in runs:
+        cap = {}
+        orig = Parameters.increase_biofuels_then_feed
+
+        def wrapped(self, *a, _orig=orig, _cap=cap, **k):
+            _cap["args"] = [np.array(x, dtype=float).copy() for x in a]
+            r = _orig(self, *a, **k)
+            _cap["out"] = [np.array(x, dtype=float).copy() for x in r]
+            return r
+        Parameters.increase_biofuels_then_feed = wrapped
+        try:
+            with ctx.quiet(), np.errstate(all="ignore"):
+                run = pipeline.run_scenario(iso, pipeline.options(**over))
+        finally:
+            Parameters.increase_biofuels_then_feed = orig
+        case = {"country": iso, "options": over}
+        if run.error or "args" not in cap or "third" not in run.params or "third" not in run.param_args:
+            ctx.count("increase:real-run-without-third-round")
+            ctx.notes.append("C18 increase rule: %s %r did not reach the third round (%s)" % (iso, over, run.error))
+            continue
+        if len(cap["args"]) != 6:
+            ctx.disagree("increase:captured-arguments", case, len(cap["args"]), 6)
+            continue
+        tc1 = run.param_args["third"][0][3]
+        tc3 = run.params["third"][1]
+        m1f, m3f = tc1["each_month_meat_slaughtered"], tc3["each_month_meat_slaughtered"]
+        m1 = [float(v) for v in np.asarray(m1f.kcals, dtype=float)]
+        m3 = [float(v) for v in np.asarray(m3f.kcals, dtype=float)]
+        if m1f.kcals_units != "billion kcals each month" or m3f.kcals_units != "billion kcals each month":
+            ctx.disagree("increase:meat-series-units", case, [m1f.kcals_units, m3f.kcals_units], "billion kcals each month")
+            continue
+        # u: what in_units_kcals_equivalent multiplies the kcals of a "billion kcals each month" quantity by
+        u = float(m1f.get_conversion(m1f.units, "kcals per person per day each month", "effective kcals per person per day each month",
+                                     "effective kcals per person per day each month")[0])
+        code = str(run.constants_for_params.get("COUNTRY_CODE", iso))
+        o = ctx.lean(["handoff.nzlConst %s" % wire.enc_str(code)])[0]
+        const = Reader(o).float()
+        o = ctx.lean(["handoff.increase %s %s %s %s" % (f2b(u), f2b(const), fl(m1), fl(m3))])[0]
+        model = Reader(o).floats()
+        got = [float(v) for v in cap["args"][2]]
+        scale = max([1.0] + [abs(v) for v in got] + [abs(a - b) for a, b in zip(m3, m1)])
+        if len(model) != len(got) or not close_list(got, model, 1e-9, 1e-9 * scale):
+            bad = max(range(min(len(got), len(model))), key=lambda j: abs(got[j] - model[j])) if got and model else 0
+            ctx.violation("increase-rule", "%s: the potential increase handed to increase_biofuels_then_feed in month %d is %r; the documented rule "
+                          "(half of the extra meat of round 3 over round 1, in kcals per person per day, minus %r, clipped at zero) gives %r" % (
+                              iso, bad, got[bad] if got else None, const, model[bad] if model else None),
+                          dict(case, month=bad, increase=got[bad] if got else None, rule=model[bad] if model else None, u=u, const=const,
+                               meat_round1=m1[bad] if m1 else None, meat_round3=m3[bad] if m3 else None))
+        # the whole final adjustment on the captured arrays: model pipeline vs the code's result, and the property itself
+        b, f, inc, mb, mf, av = [[float(v) for v in a] for a in cap["args"]]
+        o = ctx.lean(["handoff.bumpAll %s" % " ".join(fl(x) for x in (b, f, model if len(model) == len(b) else inc, mb, mf, av))])[0]
+        rd = Reader(o)
+        mbm, mfm = rd.floats(), rd.floats()
+        gb, gf = [float(v) for v in cap["out"][0]], [float(v) for v in cap["out"][1]]
+        if not (close_list(gb, mbm, 1e-7, 1e-9 * scale) and close_list(gf, mfm, 1e-7, 1e-9 * scale)):
+            ctx.disagree("increase:final-adjustment", case, [gb[:6], gf[:6]], [mbm[:6], mfm[:6]])
+        for j in range(len(b)):
+            tol = 1e-9 * max(1.0, abs(mb[j]), abs(mf[j]), abs(b[j]), abs(f[j]))
+            if gb[j] < b[j] - tol or gf[j] < f[j] - tol:
+                ctx.violation("bump-lowers", "%s: the final adjustment lowered feed or biofuel in month %d" % (iso, j), dict(case, month=j))
+            if gb[j] > max(b[j], mb[j]) + tol or gf[j] > max(f[j], mf[j]) + tol + 2e-9:
+                ctx.violation("final-charge-above-demand", "%s: the final adjustment left month %d above the larger of its input and its demand" % (iso, j), dict(case, month=j))
+        npos = sum(1 for v in got if v > 0)
+        nclip = sum(1 for a, c in zip(m1, m3) if c - a > 0) - npos
+        ctx.case(("increase", iso, tuple(sorted(over.items()))), nontrivial=npos > 0,
+                 sample={"helper": "third-round increase", "country": iso, "u": u, "const": const, "months_positive": npos, "months_clipped": max(nclip, 0)})
+        ctx.count("increase:real-runs")
+        ctx.count("increase:months-positive", npos)
+        ctx.count("increase:months-clipped", max(nclip, 0))
+        ctx.count("increase:const-%g" % const)
+
+
 def correspondence(ctx):
     P = _params()
     k = ctx.budget(1, 20)
     run_min_needs(ctx, P, gen_min_needs(ctx, 60 * k))
     run_fill_redistribute(ctx, P, 400 * k, 400 * k)
     run_bump(ctx, P, CORPUS_BUMP + gen_bump(ctx, 600 * k))
+    run_real_increase(ctx)
 
 
 def search(ctx):
@@ -331,6 +419,7 @@ def search(ctx):
     run_min_needs(ctx, P, gen_min_needs(ctx, 300))
     run_fill_redistribute(ctx, P, 3000, 3000)
     run_bump(ctx, P, gen_bump(ctx, 4000, in_domain_only=True))
+    run_real_increase(ctx, REAL_RUNS + [("BRA", dict(NMONTHS=48)), ("IND", dict(NMONTHS=48)), ("AUS", dict(NMONTHS=48, shutoff="continued"))])
 
 
 def replay(ctx, rep):
@@ -352,6 +441,8 @@ def replay(ctx, rep):
             res = P.get_second_round_kcals_with_redistributed_meat(np.array(c["r1"]), np.array(c["r2"]), None, None)
             if res is None or min(res) < -1e-6 or abs(res.sum() - sum(c["r2"])) > 1e-6 * max(1, sum(c["r2"])) or any(g < a - 1e-6 * max(1, a) for g, a in zip(res, c["r1"])):
                 ctx.violation(v["key"], v["what"], c)
+        elif "country" in c and h is None:
+            run_real_increase(ctx, [(c["country"], c.get("options", {}))])
         elif h == "calculate_human_consumption_for_min_needs":
             months = c.get("months") or [c["eaten"][:4] + [c["eaten"][4], 0.0] + c["eaten"][5:]]
             run_min_needs(ctx, P, [(c["kd"], c["T"], c["p1"], months, False)])
